@@ -139,7 +139,7 @@ struct Gen {
               if (is_ctr(k) && o.code == OP_PENC) o.code = OP_ENC;
               if (k == MCTR || k == PM) { o.rounds = 6; }
               if (o.code == OP_SETKEY) { o.size = is_mantis(k) ? 16 : bs; o.a = r.bytes(o.size); }
-              if (o.code == OP_ENC || o.code == OP_PENC) { o.size = bs; o.a = r.bytes(bs); if (k == PM) o.b = r.bytes(bs); }
+              if (o.code == OP_ENC || o.code == OP_PENC) { o.size = r.chance(1, 4) ? 0 : bs; o.a = r.bytes(o.size); if (k == PM) o.b = r.bytes(o.size); }
               if (o.code == OP_SETTWEAK) { o.size = is_mantis(k) ? 8 : bs; o.a = r.bytes(o.size); }
               if (o.code == OP_SETCTR) { o.size = bs; o.a = r.bytes(bs); } }
             break;
@@ -232,7 +232,7 @@ static inline Plan gen_lifecycle(Rng rng, int nops_max, bool rich_before_cleanup
             else if (c < 55) { Op &o = G.emit(OP_CLEANUP, s); o.flags |= F_NULLOBJ; }
             else if (c < 62) G.zero(s);
             else if (c < 72) { Op &o = G.emit(OP_SETKEY, s); o.size = is_mantis(q.kind) ? 16 : kind_bs(q.kind); o.a = G.r.bytes(o.size); o.rounds = 6; }
-            else if (c < 80 && is_ctr(q.kind)) { Op &o = G.emit(OP_ENC, s); o.size = 1 + G.r.below(40); o.a = G.r.bytes(o.size); }
+            else if (c < 80 && is_ctr(q.kind)) { Op &o = G.emit(OP_ENC, s); o.size = G.r.chance(1, 5) ? 0 : 1 + G.r.below(40); o.a = G.r.bytes(o.size); }
             else if (c < 86 && is_ctr(q.kind)) { Op &o = G.emit(OP_SETCTR, s); o.size = kind_bs(q.kind); o.a = G.r.bytes(o.size); }
             else if (c < 92 && is_ctr(q.kind)) { Op &o = G.emit(OP_SETTWEAK, s); o.size = 8; o.a = G.r.bytes(8); }
             else if (is_par(q.kind)) { Op &o = G.emit(OP_PENC, s); o.size = kind_bs(q.kind) * G.r.below(5); o.a = G.r.bytes(o.size); if (q.kind == PM) o.b = G.r.bytes(o.size); }
@@ -260,7 +260,7 @@ static inline Plan gen_failinit(Rng rng, uint64_t run) {
         unsigned c = G.r.below(100);
         if (c < 30) G.cleanup(s);
         else if (c < 45) { Op &o = G.emit(OP_SETKEY, s); o.size = is_mantis(kind) ? 16 : kind_bs(kind); o.a = G.r.bytes(o.size); o.rounds = 6; o.mode = 1; }
-        else if (c < 55 && is_ctr(kind)) { Op &o = G.emit(OP_ENC, s); o.size = 1 + G.r.below(40); o.a = G.r.bytes(o.size); }
+        else if (c < 55 && is_ctr(kind)) { Op &o = G.emit(OP_ENC, s); o.size = G.r.chance(1, 5) ? 0 : 1 + G.r.below(40); o.a = G.r.bytes(o.size); }
         else if (c < 62 && is_ctr(kind)) { Op &o = G.emit(OP_SETCTR, s); o.size = kind_bs(kind); o.a = G.r.bytes(o.size); }
         else if (c < 68 && is_ctr(kind)) { Op &o = G.emit(OP_SETTWEAK, s); o.size = 8; o.a = G.r.bytes(8); }
         else if (c < 68 && is_par(kind)) { Op &o = G.emit(OP_PENC, s); o.size = kind_bs(kind) * G.r.below(5); o.a = G.r.bytes(o.size); if (kind == PM) o.b = G.r.bytes(o.size); }
@@ -445,7 +445,7 @@ static inline Plan gen_errors(Rng rng) {
             switch (G.r.below(5)) {
             case 0: o.code = OP_SETKEY; o.size = is_mantis(q.kind) ? 16 : bs; o.a = G.r.bytes(o.size); o.rounds = 6; o.mode = 1; break;
             case 1: o.code = is_ctr(q.kind) ? OP_SETCTR : OP_PENC; o.size = bs; o.a = G.r.bytes(bs); if (q.kind == PM) o.b = G.r.bytes(bs); break;
-            case 2: o.code = is_ctr(q.kind) ? OP_ENC : OP_PDEC; if (q.kind == PM) o.code = OP_PENC; o.size = bs * (1 + G.r.below(4)); o.a = G.r.bytes(o.size); if (q.kind == PM) o.b = G.r.bytes(o.size); break;
+            case 2: o.code = is_ctr(q.kind) ? OP_ENC : OP_PDEC; if (q.kind == PM) o.code = OP_PENC; o.size = bs * (G.r.chance(1, 4) ? 0 : 1 + G.r.below(4)); o.a = G.r.bytes(o.size); if (q.kind == PM) o.b = G.r.bytes(o.size); break;
             case 3: o.code = is_ctr(q.kind) ? OP_SETTWEAK : OP_SETKEY; o.size = is_ctr(q.kind) ? 8 : (is_mantis(q.kind) ? 16 : bs); o.a = G.r.bytes(o.size); o.rounds = 5; o.mode = 0; break;
             default: o.code = (q.kind == CTR128 || q.kind == CTR64) ? OP_SETTKEY : OP_CLEANUP; o.size = bs; o.a = G.r.bytes(bs); if (o.code == OP_CLEANUP) { o.flags = 0; o.a.clear(); } break;
             }
